@@ -289,6 +289,22 @@ def minimizeVia {X F G : Type}
     (func : X → F) (gradfunc : Option (X → G)) (x0 : X) : X × Info F G :=
   wrapMinimize (scipy func gradfunc x0)
 
+/-- what `minimize.solve` hands to `scipy.optimize.minimize(func, x0, jac=gradfunc, method=method, **kwargs)`:
+    `method` exactly as given (`None` stays `None` — SciPy, not the wrapper, resolves the default from the
+    bounds/constraints it receives), `jac` present iff a gradient was given, every keyword as given, in order -/
+structure SciCall where
+  method : Option String
+  hasJac : Bool
+  kwargs : List String
+  deriving DecidableEq, Repr
+
+def minimizeCall (method : Option String) (hasGrad : Bool) (kwargs : List String) : SciCall :=
+  { method := method, hasJac := hasGrad, kwargs := kwargs }
+
+/-- `maximize` negates `func`/`gradfunc` and forwards `method` and the keywords untouched -/
+def maximizeCall (method : Option String) (hasGrad : Bool) (kwargs : List String) : SciCall :=
+  minimizeCall method hasGrad kwargs
+
 /-- `L_BFGS_B.solve`: `(success, message)` from `fmin_l_bfgs_b`'s `warnflag` and `task` -/
 def lbfgsbStatus (warnflag : Int) (task : String) : Nat × String :=
   if warnflag = 0 then (1, "Optimization terminated successfully.")
